@@ -112,7 +112,8 @@ def get_lpddr_phy_init_sequence(phy_settings, timing_settings):
 def get_ddr2_phy_init_sequence(phy_settings, timing_settings):
     cl   = phy_settings.cl
     bl   = 4
-    wr   = 2
+    # MR[11:9] = WR - 1 with WR >= ceiling(tWR/tCK), limited to the DDR2 range (2..6 clocks).
+    wr   = min(max(timing_settings.tWR*phy_settings.nphases, 2), 6) - 1
     mr   = log2_int(bl) + (cl << 4) + (wr << 9)
     emr  = 0
     emr2 = 0
@@ -218,7 +219,7 @@ def get_ddr3_phy_init_sequence(phy_settings, timing_settings):
     ron     = getattr(phy_settings, "ron",     "34ohm")
     tdqs    = getattr(phy_settings, "tdqs",    0)
 
-    wr  = max(timing_settings.tWTR*phy_settings.nphases, 5) # >= ceiling(tWR/tCK)
+    wr  = min(max(timing_settings.tWR*phy_settings.nphases, 5), 16) # >= ceiling(tWR/tCK), limited to the MR0 range
     mr0 = format_mr0(bl, cl, wr, 1)
     mr1 = format_mr1(z_to_ron[ron], z_to_rtt_nom[rtt_nom], tdqs)
     mr2 = format_mr2(cwl, z_to_rtt_wr[rtt_wr])
@@ -423,7 +424,7 @@ def get_ddr4_phy_init_sequence(phy_settings, timing_settings):
     dm      = 1
     assert not (dm and tdqs)
 
-    wr  = max(timing_settings.tWTR*phy_settings.nphases, 10) # >= ceiling(tWR/tCK)
+    wr  = min(max(timing_settings.tWR*phy_settings.nphases, 10), 28) # >= ceiling(tWR/tCK), limited to the MR0 range
     mr0 = format_mr0(bl, cl, wr, 1)
     mr1 = format_mr1(1, z_to_ron[ron], z_to_rtt_nom[rtt_nom], tdqs)
     mr2 = format_mr2(cwl, z_to_rtt_wr[rtt_wr])
